@@ -67,7 +67,7 @@ package disk
 //@   ensures[C03,C17] exact: result <==> a + b > c
 
 //@ func (c *SizedLRU) Unreserve(size int64) error
-//@   serves C03
+//@   serves C03 C07
 //@   requires c != nil && c.currentSize >= 0 && c.reservedSize >= 0
 //@   requires[C07] lock: muHeld
 //@   requires[C03,C07] own: size <= held
@@ -131,7 +131,7 @@ package disk
 //@   ensures[C05] miss: !old(has(c.cache, strkey(key))) ==> (result1 == nil && c.ll.seq == old(c.ll.seq))
 
 //@ func (c *SizedLRU) Reserve(size int64) error
-//@   serves C03 C05 C07 C17
+//@   serves C01 C03 C05 C07 C17 C18
 //@   requires lruInv(c)
 //@   requires[C07] lock: muHeld
 //@   modifies c.currentSize, c.reservedSize, c.uncompressedSize, c.ll.seq, mapof(c.cache), #list.Element.owner, evq, evN, qobs, c.totalDiskSizePeak
@@ -158,7 +158,7 @@ package disk
 //@   call removeElement#* asserts[C05] pressure: size + c.currentSize > c.maxSize
 
 //@ func (c *SizedLRU) Add(key string, value lruItem) (ok bool)
-//@   serves C03 C04 C05 C07 C09 C17
+//@   serves C01 C03 C04 C05 C07 C09 C17
 //@   requires lruInv(c)
 //@   requires[C07] lock: muHeld
 //@   requires sizes: 0 <= value.sizeOnDisk && value.sizeOnDisk <= B62() && 0 <= value.size
